@@ -120,9 +120,52 @@ def atlas_docs():
     C = {"Base": obj({"id": {"type": "integer"}, "tag": {"type": "string"}}, required=["id"]),
          "Mixin": obj({"when": {"type": "string", "format": "date"}, "tag": {"type": "string"}}, required=["tag"]),
          "Composed": {"allOf": [{"$ref": REF + "Base"}, {"$ref": REF + "Mixin"}, obj({"extra": arr({"$ref": REF + "Base"})})]},
-         "Chain": {"allOf": [{"$ref": REF + "Composed"}, obj({"more": {"type": "number"}}, required=["more"])]}}
+         "Chain": {"allOf": [{"$ref": REF + "Composed"}, obj({"more": {"type": "number"}}, required=["more"])]},
+         # a child that REQUIRES properties its parent declares as optional, without restating them: the parent (declared before AND after
+         # the child) must keep them optional
+         "PetA": obj({"id": {"type": "integer"}, "nickname": {"type": "string"}, "born": {"type": "string", "format": "date"}}, required=["id"]),
+         "RegisteredPet": {"allOf": [{"$ref": REF + "PetA"}, {"type": "object", "required": ["nickname", "registry"], "properties": {"registry": {"type": "string"}}}]},
+         "RegisteredPetB": {"allOf": [{"$ref": REF + "PetB"}, {"type": "object", "required": ["born"]}]},
+         "PetB": obj({"id": {"type": "integer"}, "nickname": {"type": "string"}, "born": {"type": "string", "format": "date"}}, required=["id"]),
+         "SiblingOfRegistered": {"allOf": [{"$ref": REF + "PetA"}, obj({"other": {"type": "integer"}})]}}
     docs.append(("allof", doc_with(C)))
     return docs
+
+
+def doc_props_required(doc, schema, depth=0):
+    """from the DOCUMENT alone: (declared property names, names the schema requires) of an object schema, through allOf members and
+    component references; None when the schema is not a plain object composition this function understands"""
+    if depth > 12 or not isinstance(schema, dict):
+        return None
+    if "$ref" in schema:
+        ref = schema["$ref"]
+        if not ref.startswith(REF):
+            return None
+        return doc_props_required(doc, doc.get("components", {}).get("schemas", {}).get(ref[len(REF):]), depth + 1)
+    if any(k in schema for k in ("oneOf", "anyOf", "enum", "const", "not")) or schema.get("type") not in (None, "object"):
+        return None
+    props, req = set((schema.get("properties") or {})), set(schema.get("required") or [])
+    for m in schema.get("allOf") or []:
+        r = doc_props_required(doc, m, depth + 1)
+        if r is None:
+            return None
+        props |= r[0]; req |= r[1]
+    return props, req
+
+
+def builtin_names_doc():
+    """every Python builtin / keyword / soft keyword as an OPTIONAL property name of an open model (the class body then binds that name:
+    it must have been renamed) and as an optional query parameter"""
+    import builtins, keyword
+    names = sorted({n for n in dir(builtins) if n.islower() and n.isidentifier() and not n.startswith("_")} | set(keyword.kwlist) | set(keyword.softkwlist) |
+                   {"self", "cls", "field", "define", "attrs", "json", "datetime", "uuid", "types", "errors", "client", "models", "api", "typing", "httpx", "http"})
+    S = {"Builtins": obj({n: {"type": "string"} for n in names}, required=[]),
+         "BuiltinsDated": obj(dict({n: {"type": "string"} for n in names[::3]}, when={"type": "string", "format": "date-time"}), required=["when"])}
+    paths = {}
+    for i in range(0, len(names), 12):
+        paths[f"/b{i}"] = {"get": {"operationId": f"builtins_{i}", "parameters": [{"name": n, "in": "query", "schema": {"type": "string"}} for n in names[i:i + 12]],
+                                   "responses": {"200": {"description": "d", "content": {"application/json": {"schema": {"$ref": REF + "Builtins"}}}}}}}
+    return doc_with(S, paths)
 
 
 def reserved_doc():
